@@ -184,11 +184,31 @@ def run(ctx):
 
     dropped_obs: List[Any] = []
 
+    def configured_handlers():
+        """The server under test in three configurations: plain, and with every optional member of its description and
+        every capability family set (what it announces must not change whether it acknowledges a version)."""
+        from chuk_mcp.server.protocol_handler import ProtocolHandler
+        from chuk_mcp.protocol.types.info import ServerInfo
+        from chuk_mcp.protocol.types import capabilities as C
+        hs = [MCPServer("s").protocol_handler]
+        try:
+            full = C.ServerCapabilities(logging=C.LoggingCapability(), prompts=C.PromptsCapability(listChanged=True),
+                                        resources=C.ResourcesCapability(subscribe=True, listChanged=True),
+                                        tools=C.ToolsCapability(listChanged=True), completion=C.CompletionCapability(),
+                                        experimental={"x-feature": {"on": True}})
+            hs.append(ProtocolHandler(ServerInfo(name="s-full", version="2.0", title="A Titled Server"), full))
+            hs.append(MCPServer("s-caps", "3", capabilities=full).protocol_handler)
+        except Exception as e:  # noqa
+            ctx.notes.append(f"configured servers could not be built: {e!r}")
+        return hs
+
     async def direct_batch(cs):
         outs = []
-        srv = MCPServer("s")
-        h = srv.protocol_handler
+        handlers = configured_handlers()
+        ctx.count("server_configurations", 0)
+        ctx.counters["server_configurations"] = max(ctx.counters.get("server_configurations", 0), len(handlers))
         for k, case in enumerate(cs):
+            h = handlers[k % len(handlers)]
             params: Dict[str, Any] = {"clientInfo": {"name": "c", "version": "1"}, "capabilities": {}}
             if case["req"] != "__absent__":
                 params["protocolVersion"] = case["req"]
